@@ -3,7 +3,8 @@ C02 — Parsing is total, lossless and position-accurate.
 
 Property theorems over the model `MesonModel.Lang` (`Lexer.lean`, `Parser.lean`, `Ast.lean`): the lexer, the
 recursive-descent parser with its pending-whitespace list, and `RawPrinter` as `emit`. Helper lemmas live in
-`MesonModel/Lang/*Lemmas.lean`, `RoundTrip.lean`, `StreamInv.lean`, `LexPrinted.lean`, `TopLemmas.lean`.
+`MesonModel/Lang/*Lemmas.lean`, `RoundTrip.lean`, `StreamInv.lean`, `LexPrinted.lean`, `TopLemmas.lean`,
+`LexSpan.lean`, `SpanDefs.lean`, `SpanInv.lean`, `SpanProd.lean` (span exactness).
 All statements quantify over every input string (`Str = List Char`).
 -/
 import MesonModel.Lang.TopLemmas
@@ -12,6 +13,7 @@ import MesonModel.Lang.LexAdj
 import MesonModel.Lang.ErrPos
 import MesonModel.Lang.TernaryFlag
 import MesonModel.Lang.Sexp
+import MesonModel.Lang.SpanProd
 
 namespace MesonModel.Props.C02
 open MesonModel.Lang
@@ -173,6 +175,101 @@ theorem lex_token_positions (s : Str) : ∀ t ∈ (lex s).toks,
 example : lineOff "ab\ncd\n".toList 2 = 3 := by decide
 /-- the `eof` token after a multi-line string sits past the end of line 1, but inside the text -/
 example : errOf "f('''a\nb'''" = some (.block 1 11) := by decide +kernel
+
+/-! ### spans: the recorded extent of every call and array literal delimits exactly the construct -/
+
+/-- the full statement of span exactness: for every accepted input and every node `n` of the tree (`sub`: the
+tree's nodes, all descendants included), if `n` is a `FunctionNode`, a `MethodNode` or an `ArrayNode` then
+the text `s[lineOff s lineno + colno : lineOff s end_lineno + end_colno]` (`extentSlice`; `lineOff` counts
+lines by `'\n'` only, as the rewriter's line table does) is the source of the construct: what `RawPrinter`
+prints for its parts, from the first token to the closing `)` / `]`, without the trivia after it
+(`SpanExact`). A `MethodNode` is positioned at its *name* (`mparser.py:534`), so its extent is
+`name(args)`, not `obj.name(args)`. False of the code as it is, for the reason `raw_roundtrip_full` is false
+(the print reorders a positional argument written after a keyword argument), see
+`span_exact_counterexample`. -/
+def span_exact_full : Prop :=
+  ∀ (s : Str) (names : List (Str × Nat)) (r : ParseOk), parseWith names s = .ok r →
+    ∀ n ∈ sub r.tree, SpanExact s n
+
+/-- `span_exact_partial`: for **every** input the parser accepts, unless a positional argument was appended
+after a keyword argument (ghost counter `lossy`, the same hypothesis as `raw_roundtrip_partial`), the
+line/column extent recorded on every function call, method call and array literal, converted to offsets with
+the line table, delimits exactly the source text of that construct — multi-line strings, continuation lines
+and comments inside the brackets included. Proved production by production (`SpanProd.lean`): a state
+invariant ties the unconsumed token stream to the suffix of the input it prints and to the line/column of its
+first token (from the lexer theorems `lex_token_offsets`, `lex_partition`, `lex_tokens_print` and "a `)` / `]`
+token is one character long"); where `e8`, `method_call` and `e9` build the node, the ghost-output-stream
+facts of `raw_roundtrip_partial` give the text between the first and the last token. -/
+theorem span_exact_partial (s : Str) (names : List (Str × Nat)) (r : ParseOk)
+    (h : parseWith names s = .ok r) (hl : r.lossy = 0) : ∀ n ∈ sub r.tree, SpanExact s n :=
+  parse_spans h hl
+
+/-- `span_exact_partial` spelled out for a `FunctionNode`: `f(...)` from the `f` to the `)` -/
+theorem span_exact_function (s : Str) (names : List (Str × Nat)) (r : ParseOk)
+    (h : parseWith names s = .ok r) (hl : r.lossy = 0) (b : Base) (name lpar a rpar : Node)
+    (hn : Node.function b name lpar a rpar ∈ sub r.tree) :
+    slice s (lineOff s b.lineno + b.colno) (lineOff s b.endLineno + b.endColno) =
+      emit name ++ emit lpar ++ emit a ++ symValue rpar :=
+  span_exact_partial s names r h hl _ hn
+
+/-- … for an `ArrayNode`: `[...]` from the `[` to the `]` -/
+theorem span_exact_array (s : Str) (names : List (Str × Nat)) (r : ParseOk)
+    (h : parseWith names s = .ok r) (hl : r.lossy = 0) (b : Base) (l a rb : Node)
+    (hn : Node.array b l a rb ∈ sub r.tree) :
+    slice s (lineOff s b.lineno + b.colno) (lineOff s b.endLineno + b.endColno) =
+      emit l ++ emit a ++ symValue rb :=
+  span_exact_partial s names r h hl _ hn
+
+/-- … for a `MethodNode`: `name(...)` from the method name to the `)` (the object expression and the dot lie
+before the recorded start) -/
+theorem span_exact_method (s : Str) (names : List (Str × Nat)) (r : ParseOk)
+    (h : parseWith names s = .ok r) (hl : r.lossy = 0) (b : Base) (obj dot name lpar a rpar : Node)
+    (hn : Node.method b obj dot name lpar a rpar ∈ sub r.tree) :
+    slice s (lineOff s b.lineno + b.colno) (lineOff s b.endLineno + b.endColno) =
+      emit name ++ emit lpar ++ emit a ++ symValue rpar :=
+  span_exact_partial s names r h hl _ hn
+
+/-- `(text cut by the extent, construct)` for every call / array node of the tree, in tree order -/
+def spansOf (s : String) : Option (List (String × String)) :=
+  match parse s.toList with
+  | .ok r => some ((sub r.tree).filterMap (fun n =>
+      match n with
+      | .function b name lpar a rpar =>
+        some (String.ofList (extentSlice s.toList b), String.ofList (emit name ++ emit lpar ++ emit a ++ symValue rpar))
+      | .method b _ _ name lpar a rpar =>
+        some (String.ofList (extentSlice s.toList b), String.ofList (emit name ++ emit lpar ++ emit a ++ symValue rpar))
+      | .array b l a rb => some (String.ofList (extentSlice s.toList b), String.ofList (emit l ++ emit a ++ symValue rb))
+      | _ => none))
+  | .error _ => none
+
+/-- the hypotheses of `span_exact_partial` are satisfiable on a program with nested calls, a method chain, an
+array spanning lines with a multi-line string and a comment inside -/
+example : (match parse "x = f(a, [1, 2] , k : g( 3 ) ) # c\ny = a.b(1).c( [ '''m\nl''' , # d\n 2] )\n".toList with
+    | .ok r => r.lossy == 0 && ((sub r.tree).filter Node.isCallOrArray).length == 6 &&
+        (sub r.tree).all (spanExactB "x = f(a, [1, 2] , k : g( 3 ) ) # c\ny = a.b(1).c( [ '''m\nl''' , # d\n 2] )\n".toList)
+    | .error _ => false) = true := by decide +kernel
+
+example : spansOf "y = a.b(1).c( [ 2,\n 3] ) \n" =
+    some [("c( [ 2,\n 3] )", "c( [ 2,\n 3] )"), ("b(1)", "b(1)"), ("[ 2,\n 3]", "[ 2,\n 3]")] := by decide +kernel
+
+/-- with a keyword argument before a positional one the extent still delimits the call as written, but the
+print of its parts is reordered (F-PARSE-KWORDER) -/
+theorem kwarg_before_positional_span :
+    spansOf "f(a: 1, b)\n" = some [("f(a: 1, b)", "f(b, a: 1)")] := by decide +kernel
+
+/-- the full statement is false of the code as it is -/
+theorem span_exact_counterexample : ¬ span_exact_full := by
+  intro h
+  have hw : (match parse "f(a: 1, b)\n".toList with
+      | .ok r => (sub r.tree).all (spanExactB "f(a: 1, b)\n".toList)
+      | .error _ => true) = false := by decide +kernel
+  split at hw
+  · rename_i r hr
+    have hall := h _ [] r hr
+    have : (sub r.tree).all (spanExactB "f(a: 1, b)\n".toList) = true :=
+      List.all_eq_true.mpr (fun n hn => (spanExactB_iff n).mpr (hall n hn))
+    rw [this] at hw; cases hw
+  · cases hw
 
 /-- `fuel_suffices`: the model's recursion bound is never the reason for a failure -/
 theorem fuel_suffices (s : Str) (names : List (Str × Nat)) : parseWith names s ≠ .error .fuel := by
